@@ -6,6 +6,8 @@
 
 mod engine;
 mod leaf;
+mod pbatch;
+mod pubbatch;
 mod props;
 mod refm;
 mod util;
@@ -86,6 +88,16 @@ fn dispatch(ctx: &Ctx) -> bool {
         "C02" => props::leafattacks::run_c02(ctx),
         "C03" => props::leafattacks::run_c03(ctx),
         "C04" => props::leafattacks::run_c04(ctx),
+        "C06" => props::privprops::run(ctx, props::privprops::Which::C06),
+        "C07" => props::privprops::run(ctx, props::privprops::Which::C07),
+        "C08" => props::privprops::run(ctx, props::privprops::Which::C08),
+        "C09" => props::privprops::run(ctx, props::privprops::Which::C09),
+        "C10" => props::gadgetprops::run_c10(ctx),
+        "C30" => props::gadgetprops::run_c30(ctx),
+        "C31" => props::gadgetprops::run_c31(ctx),
+        "C12" => props::pubprops::run(ctx, props::pubprops::Which::C12),
+        "C13" => props::pubprops::run(ctx, props::pubprops::Which::C13),
+        "C36" => props::pubprops::run_c36(ctx),
         _ => return false,
     }
     true
@@ -103,6 +115,20 @@ fn run_replay(id: &str, path: &PathBuf) -> i32 {
     let case = &v["case"];
     let r = match case["kind"].as_str() {
         Some("leaf_attack") | Some("leaf_attack_hint") => props::leafdrv::replay(case),
+        Some(k) if k.starts_with("priv_") => {
+            let w = match id {
+                "C06" => props::privprops::Which::C06,
+                "C08" => props::privprops::Which::C08,
+                "C09" => props::privprops::Which::C09,
+                _ => props::privprops::Which::C07,
+            };
+            props::privprops::replay(case, w)
+        }
+        Some("lt") | Some("lt_hint") | Some("sort") | Some("sort_hint") | Some("bound") | Some("bound_hint") => props::gadgetprops::replay(case),
+        Some(k) if k.starts_with("pub_") => props::pubprops::replay(
+            case,
+            if id == "C12" { props::pubprops::Which::C12 } else { props::pubprops::Which::C13 },
+        ),
         other => Err(format!("no replay handler for kind {:?}", other)),
     };
     match r {
